@@ -74,6 +74,14 @@ class RefUnspec(Exception):
     """The configuration / input lies in a zone the docs leave open."""
 
 
+class ConstructorRejects(Exception):
+    """The destination class raised while the harness constructed the expected object."""
+
+    def __init__(self, error: BaseException):
+        super().__init__(repr(error))
+        self.error = error
+
+
 SCALARS = {"int": int, "str": str, "bool": bool, "float": float, "bytes": bytes, "dec": Decimal, "enum": Kind}
 ITER = {"list": list, "tuple": tuple, "set": set, "deque": collections.deque}
 FACTORIES = {"list": list, "dict": dict, "tuple": tuple, "str": str, "set": set, "bytes": bytes}
@@ -571,9 +579,16 @@ class Ref:
         raise ValueError(p)
 
     # ---- coercion
-    def coercer(self, S, D, sst, dst):  # noqa: C901, PLR0911, PLR0912
+    def coercer(self, S, D, sst, dst, alt_dst=None):  # noqa: C901, PLR0911, PLR0912
         for i, it in enumerate(self.recipe):
-            if it["k"] == "coercer" and self.match(it["src"], sst) and self.match(it["dst"], dst):
+            if it["k"] != "coercer" or not self.match(it["src"], sst):
+                continue
+            hit = self.match(it["dst"], dst)
+            if alt_dst is not None and hit != self.match(it["dst"], alt_dst):
+                # where a link_function parameter "lives" (below the destination field or directly below the
+                # destination model) is not documented; a predicate that tells the two apart is not asserted
+                raise RefUnspec("coercer predicate against the location of a link_function parameter")
+            if hit:
                 fn = self.fns[i]
                 self.labels.add("coerce:user_" + ("type" if it["src"][0] == "T" else "field"))
                 return lambda v, ctx: fn(v)
@@ -720,7 +735,11 @@ class Ref:
             self.labels.add("mode:" + mode)
 
         def run(v, ctx):
-            return construct(E, dmi, {name: p(v, ctx) for name, p in plans})
+            kwargs = {name: p(v, ctx) for name, p in plans}
+            try:
+                return construct(E, dmi, kwargs)
+            except Exception as e:  # noqa: BLE001 -- only the user-level constructor call is guarded
+                raise ConstructorRejects(e) from e
         return run
 
     def _from_field(self, S, fname, co):
@@ -743,13 +762,15 @@ class Ref:
             if not ps:
                 raise RefRefuse(f"link_function parameter {pname!r} has no converter parameter", True)
             t = annot or ["any"]
-            pos.append((pname, self.coercer(ps[0]["t"], t, [("param", pname, ps[0]["t"])], [*gst, ("funcparam", pname, t)])))
+            pos.append((pname, self.coercer(ps[0]["t"], t, [("param", pname, ps[0]["t"])], [*gst, ("funcparam", pname, t)],
+                                            [*gst[:-1], ("funcparam", pname, t)])))
         for fname, annot in spec["kw"]:
             fs = [f for f in S["fields"] if f["n"] == fname]
             if not fs:
                 raise RefRefuse(f"link_function keyword-only parameter {fname!r} has no model field", True)
             t = annot or ["any"]
-            co = self.coercer(fs[0]["t"], t, [*sst, ("field", fname, fs[0]["t"])], [*gst, ("funcparam", fname, t)])
+            co = self.coercer(fs[0]["t"], t, [*sst, ("field", fname, fs[0]["t"])], [*gst, ("funcparam", fname, t)],
+                              [*gst[:-1], ("funcparam", fname, t)])
             kws.append((fname, self._from_field(S, fname, co)))
         with_model = spec["model"]
 
@@ -889,6 +910,7 @@ def check_case(ctx: runner.Ctx, case):  # noqa: C901, PLR0912, PLR0915
             retort = retort.extend(recipe=ext_recipe)
     conv = None
     result = _MISSING
+    raised = None
     snapshot = canon([src_obj, list(args[1:]), sorted(kwargs.items(), key=lambda kv: kv[0])], E)
     try:
         if api["kind"] == "get":
@@ -915,11 +937,12 @@ def check_case(ctx: runner.Ctx, case):  # noqa: C901, PLR0912, PLR0915
             ctx.count("refused_as_documented")
         return
     except Exception as e:  # noqa: BLE001 -- anything but ProviderNotFoundError out of the public entry point
-        if api["kind"] == "convert" and verdict == "ok":
-            viol("call_raised", (type(e).__name__, exc_site(e), risk), describe(e))
-        elif verdict != "unspecified":
-            viol("creation_crashed", (type(e).__name__, exc_site(e), risk), describe(e))
-        return
+        if api["kind"] == "convert":
+            raised = e      # creation and call are one step here; judged below like a failing call
+        else:
+            if verdict != "unspecified":
+                viol("creation_crashed", (type(e).__name__, exc_site(e), risk), describe(e))
+            return
     finally:
         if stub_file is not None:
             linecache.cache.pop(stub_file, None)
@@ -932,7 +955,7 @@ def check_case(ctx: runner.Ctx, case):  # noqa: C901, PLR0912, PLR0915
 
     # ---- what impl_converter / get_converter promise about the function object
     if api["kind"] == "impl":
-        if inspect.signature(conv) != inspect.signature(stub):
+        if not same_signature(inspect.signature(conv), inspect.signature(stub)):
             viol("signature_differs", (risk,), f"stub {inspect.signature(stub)} converter {inspect.signature(conv)}")
         if conv.__name__ != stub.__name__:
             viol("name_differs", (risk,), f"stub {stub.__name__!r} converter {conv.__name__!r}")
@@ -946,19 +969,24 @@ def check_case(ctx: runner.Ctx, case):  # noqa: C901, PLR0912, PLR0915
         try:
             result = conv(*args, **kwargs)
         except Exception as e:  # noqa: BLE001
-            try:
-                plan(src_obj, ctxvals)
-            except RefUnspec as u:
-                ctx.count("unspecified_input")
-                ctx.count("unspecified:" + str(u)[:60])
-                return
-            viol("call_raised", (type(e).__name__, exc_site(e), risk), describe(e))
-            return
+            raised = e
     try:
         expected = plan(src_obj, ctxvals)
     except RefUnspec as u:
         ctx.count("unspecified_input")
         ctx.count("unspecified:" + str(u)[:60])
+        return
+    except ConstructorRejects as c:
+        # the destination class itself refuses the linked values (validating constructor): the converter calls the same
+        # constructor with the same values, so it has to fail the same way
+        ctx.count("destination_constructor_rejects_values")
+        if raised is None or type(raised) is not type(c.error):
+            viol("constructor_error_differs", (type(c.error).__name__, type(raised).__name__),
+                 f"harness construction raised {describe(c.error)}; converter: "
+                 + (describe(raised) if raised is not None else f"returned {result!r}"))
+        return
+    if raised is not None:
+        viol("call_raised", (type(raised).__name__, exc_site(raised), risk), describe(raised))
         return
     got_c, exp_c = canon(result, E), canon(expected, E)
     if got_c != exp_c:
@@ -970,6 +998,18 @@ def check_case(ctx: runner.Ctx, case):  # noqa: C901, PLR0912, PLR0915
     after = canon([src_obj, list(args[1:]), sorted(kwargs.items(), key=lambda kv: kv[0])], E)
     if after != snapshot:
         viol("arguments_mutated", (models[smi]["kind"],), f"before {snapshot!r} after {after!r}")
+
+
+def same_signature(a: inspect.Signature, b: inspect.Signature) -> bool:
+    """Signature equality that accepts the *same* default object even when it is not equal to itself (nan)."""
+    if a.return_annotation != b.return_annotation or list(a.parameters) != list(b.parameters):
+        return False
+    for pa, pb in zip(a.parameters.values(), b.parameters.values()):
+        if pa.kind != pb.kind or pa.annotation != pb.annotation:
+            return False
+        if pa.default is not pb.default and not (type(pa.default) is type(pb.default) and pa.default == pb.default):
+            return False
+    return True
 
 
 def _cause(e) -> str:
